@@ -29,12 +29,12 @@ FUNCS = {
     "C04": None, "C05": None, "C11": None, "C12": None, "C13": None, "C19": None,
 }
 EXPL = {
-    "C04": "Sequential queue and output clauses on the real channel functions under the ownership discipline: requests/request written only under requests_lock, output state touched only under outbuf_lock or by the I/O thread while no worker owns the connection (R1/R3), the I/O thread only appends to `requests`, reading stops while output is pending, flushing never grows the pending total and tears down only with do_close.",
-    "C05": "Wake discipline as postconditions: a worker that leaves the flush threshold reached, finishes service() or is about to block has pulled the trigger since its last wait (W1, W2, R5); the I/O-side flush notifies the producer whenever it leaves the backlog at or below the mark (W4); close flags / pending output make the channel writable.",
-    "C11": "Decision monotonicity: server.add_task is reached only with neither close flag set and with requests_lock held; close_when_flushed is written under requests_lock together with requests == []; received() parses only while no close decision is visible under the lock; readable() is false after the decision; handle_write keeps the decision.",
-    "C12": "Bound and release: at the append point of write_soon the backlog is at or below the high watermark or the client is gone (so pending <= watermark + one write), for every watermark/send_bytes value; the producer pulls the trigger before each wait; the I/O side notifies at or below the mark.",
+    "C04": "Sequential queue and output clauses on the real channel functions under the ownership discipline: requests/request written only under requests_lock, every access to the output state under outbuf_lock on either thread (R1/R3), the I/O thread only appends to `requests` and a worker only pops, when service() releases requests_lock after the pop a request still queued has exactly one task and no task exists without one, reading stops while output is pending, flushing never grows the pending total and tears down only with do_close; plus the representation and loop invariants of the shared world, the bodies of the buffer operations the channel relies on, and the FIFO stand-in on the real buffers.",
+    "C05": "Wake discipline as postconditions: a worker that leaves the flush threshold reached, finishes service() or is about to block has pulled the trigger since its last wait (W1, W2, R5); the I/O-side flush notifies the producer whenever it leaves the backlog at or below the mark (W4) and handle_close always notifies (W5); close flags / pending output make the channel writable; every submission to the worker pool notifies the workers' condition and a woken worker survives (add_task, handler_thread).",
+    "C11": "Decision monotonicity: server.add_task is reached only with neither close flag set and with requests_lock held; close_when_flushed is published under requests_lock before the queue is dropped; received() parses only while no close decision is visible under the lock; readable() is false after the decision; handle_write keeps the decision; the parser's own close decision and a response that turns out undelimited (too few bytes) both end in close_on_finish (build_response_header, WSGITask.execute).",
+    "C12": "Bound and release: at the append point of write_soon the backlog is at or below the high watermark or the client is gone (so pending <= watermark + one write), for every watermark/send_bytes value; the producer pulls the trigger before each wait; the I/O side notifies at or below the mark; teardown clears `connected` and notifies before it releases the lock; every flush holds outbuf_lock (no concurrent flush can duplicate or reorder output); the buffer bodies behind the accounting and the FIFO stand-in.",
     "C13": "Listener safety: for every placement of OSError on accept(), setsockopt() and the HTTPChannel constructor (getsockopt/setblocking), nothing escapes handle_accept, the listener keeps accepting and at most one descriptor is added. Role frames: on a worker no send may tear the channel down (do_close false at every send reachable from service), a worker never calls handle_close/close/del_channel; teardown only clears `connected`.",
-    "C19": "100-continue clauses: send_continue is called only for a partial expecting request whose headers are finished, with requests == [], the latch clear and requests_lock held (both call sites), it latches, and it does not change the request's completed flag; a pending request is never left completed when the lock is released.",
+    "C19": "100-continue clauses: send_continue is called only for a partial expecting request whose headers are finished, with requests == [], the latch clear and requests_lock held (both call sites), it latches, appends the interim line to the LAST output buffer (behind everything pending) and does not change the request's completed flag; the latch belongs to the request being read; a pending request is never left completed when the lock is released; parse_header sets expect_continue only for HTTP/1.1.",
 }
 
 
